@@ -273,6 +273,7 @@ fn judge_query<K: Kit>(q: &Q<K>, b: &mut Batch, road: &[(Vec<f64>, Vec<usize>)],
 
 fn run_case<K: Kit>(ctx: &Ctx, b: &mut Batch, kit: &K, case: &PrmCase) {
     b.evaluations += 1;
+    crate::watch::set_case(case.to_json());
     let Ok(eval) = WorldEval::<K>::new(kit, &case.problem.world) else { return };
     let sp = &eval.sp;
     oxmpl::verif::arm(0);
